@@ -70,6 +70,9 @@ pub struct Outcome {
     pub checks: u64,
     /// Number of sub-inputs excluded by construction because they belong to a known finding.
     pub excluded_known: u64,
+    /// Hash of the run's observable trace (simulations): with VERIF_TWICE set every case is run
+    /// twice and differing hashes are reported as harness nondeterminism (exit 2).
+    pub trace: Option<u64>,
 }
 
 impl Outcome {
@@ -351,7 +354,23 @@ pub struct RunArgs {
 /// (or nothing fired), Err((violation, outcome)) otherwise.
 pub fn decide<P: Property>(prop: &P, case: &P::Case) -> (Outcome, Option<Violation>, Vec<FindingEntry>) {
     set_quiet(true);
-    let res = catch(|| prop.run(case));
+    let mut res = catch(|| prop.run(case));
+    if std::env::var_os("VERIF_TWICE").is_some()
+        && let Ok(first) = &res
+        && first.trace.is_some()
+    {
+        let again = catch(|| prop.run(case));
+        if let Ok(second) = &again
+            && second.trace != first.trace
+        {
+            let mut o = Outcome::default();
+            o.violate(
+                format!("{}/nondeterministic-run/src/fixtures/", prop.id()),
+                format!("two runs of the same case produced traffic hashes {:?} and {:?}", first.trace, second.trace),
+            );
+            res = Ok(o);
+        }
+    }
     set_quiet(false);
     let _ = take_panics();
     let outcome = match res {
